@@ -180,6 +180,11 @@ func (pr *PolicyResolver) OnPolicyMatchStopped(policyKey model.PolicyKey, endpoi
 	// This policy is not active anymore, we no longer need to track it for sorting.
 	if !pr.policyIDToEndpointIDs.ContainsKey(policyKey) {
 		pr.policySorter.UpdatePolicy(policyKey, nil)
+		// If the match started and stopped again before a flush, the policy is still queued to be
+		// added to the sorter.  Adding it would leave an inactive policy in the sorter, where later
+		// updates to the (inactive) policy never reach it; when the policy matched again it would be
+		// sorted with that stale tier, order and types.
+		pr.pendingPolicyUpdates.Discard(policyKey)
 	}
 
 	pr.dirtyEndpoints.Add(endpointKey)
